@@ -759,24 +759,26 @@ func c03GuardInHelper(p *Prog, r *Report, fi *FuncInfo, cons string) bool {
 					}
 					return nil, false
 				}
-				if hifs := conflictIf(info, h.Decl.Body); hifs != nil {
-					// the verdict is produced under one if statement of the helper (inside its loop over the
-					// keys): its condition is the guard
-					v, err := env.Eval(hifs.Cond)
-					if err != nil || v.C == nil {
-						r.Undecided("C03.c", cons, p.pos(hifs.Cond), fmt.Sprintf("guard of %s not evaluable: %v", h.Key, err))
-						return true
-					}
-					got := constant.BoolVal(v.C)
-					want := snap >= 0 && latest > snap
-					if got != want {
-						good = false
-						detail = fmt.Sprintf("snapshot point %d, committed latest %d: conflict=%v, required %v", snap, latest, got, want)
-					}
-					continue
-				}
 				_, exit, err := f.WalkPath(env)
 				if err != nil {
+					// the helper is more than the predicate (it loops over the keys): the guard is the condition
+					// of the if statement under which the verdict is produced
+					if hifs := conflictIf(info, h.Decl.Body); hifs != nil {
+						// the verdict is produced under one if statement of the helper (inside its loop over the
+						// keys): its condition is the guard
+						v, err := env.Eval(hifs.Cond)
+						if err != nil || v.C == nil {
+							r.Undecided("C03.c", cons, p.pos(hifs.Cond), fmt.Sprintf("guard of %s not evaluable: %v", h.Key, err))
+							return true
+						}
+						got := constant.BoolVal(v.C)
+						want := snap >= 0 && latest > snap
+						if got != want {
+							good = false
+							detail = fmt.Sprintf("snapshot point %d, committed latest %d: conflict=%v, required %v", snap, latest, got, want)
+						}
+						continue
+					}
 					r.Undecided("C03.c", cons, p.pos(h.Decl), "conflict helper "+h.Key+" not evaluable: "+err.Error())
 					return true
 				}
